@@ -62,7 +62,8 @@ def gen_params(rng, thorough, big=False):
     nact = n - nnull
     num = rng.randint(1, 25) if rng.random() < 0.4 else rng.randint(1, max(1, min(25, nact - 3)))
     return dict(kind='random', seed=rng.randrange(2 ** 31), n=n, nnull=nnull, num=num,
-                scale=rng.choice([0.25, 0.5, 2.0, 4.0, 9.0]), fmt=rng.choice(['csr', 'csr', 'coo', 'csc']))
+                scale=rng.choice([0.25, 0.5, 2.0, 4.0, 9.0]), fmt=rng.choice(['csr', 'csr', 'coo', 'csc']),
+                mexp=(rng.uniform(-11, -8) if rng.random() < 0.25 else None))
 
 
 def conv(A, fmt):
@@ -79,6 +80,9 @@ def build_random(p):
     Ka = rand_spd(rs, m, banded)
     Ma = rand_spd(rs, m, banded)
     Ma = Ma / np.abs(Ma).max() * 10 ** rs.uniform(-3, 0)
+    if p.get('mexp') is not None:
+        # consistent small units (e.g. N-mm-tonne): every mass entry far below 1e-8, the matrix as positive definite as before
+        Ma = Ma / np.abs(Ma).max() * 10 ** p['mexp']
     return conv(embed(Ka, n, act), p.get('fmt', 'csr')), conv(embed(Ma, n, act), p.get('fmt', 'csr')), act
 
 
